@@ -357,7 +357,10 @@ func C13(c *core.Ctx) {
 			if k.Indef {
 				key = "C13:indefinite-length-header-returns-prefix"
 			}
-			if k.H+k.V > 32768 {
+			if _, rejected := rejectedCase[i]; k.H+k.V > 32768 && !rejected {
+				// the known finding is identified by its read sequence: exactly the requests of the as-built
+				// ReadFile.tla (offset/256 in P1, i.e. b8 set from 32768 on). Wrong bytes after any OTHER
+				// sequence of requests are a different violation.
 				key = "C13:offset>=32768-read-under-sfi-semantics"
 			}
 			c.Violation(key, fmt.Sprintf("ReadFile returned bytes that are not the file's object (%s) for %s", r.detail, k), rp)
